@@ -315,6 +315,35 @@ impl Sys {
                 ensure!(rows.len() == len, "C06", "iteration-count-differs-from-len", "{} yields {} items, len() is {}", what, rows.len(), len);
             }
         }
+        // The iterators of Archetype::iter()/iter_mut() through every provided Iterator method an implementation may
+        // override: each must agree with the plain next() sequence of the same iterator (checked above against the model).
+        for a in self.sc.archs.clone() {
+            let a = a as usize;
+            for mutable in [false, true] {
+                let world = self.worlds[w].as_mut().unwrap();
+                let plain = guard("C06", "Archetype::iter", || Ok(with_arch!(a, A => <A as Arch>::iterate(world, if mutable { IP_ARCH_ITER_MUT } else { IP_ARCH_ITER }))))?;
+                for k in 0..=plain.len() {
+                    let world = self.worlds[w].as_mut().unwrap();
+                    let d = guard("C06", "Archetype::iter (derived methods)", || Ok(with_arch!(a, A => <A as Arch>::iter_derived(world, mutable, k))))?;
+                    let nm = if mutable { "iter_mut()" } else { "iter()" };
+                    ensure!(d.n == plain.len(), "C06", "iteration-count-differs-from-len", "{}.{} of {}: map(..).count() = {}, a plain pass yields {}", ARCH_NAMES[a], nm, ARCH_NAMES[a], d.n, plain.len());
+                    for (label, got, exp) in &d.seqs {
+                        let same = got.len() == exp.len() && got.iter().zip(exp.iter()).all(|(g, i)| plain.get(*i).map(|p| p.bits == g.bits && p.dig == g.dig).unwrap_or(false));
+                        ensure!(same, "C06,C02", "derived-iterator-method-disagrees", "{}.{}.{} with k = {}: yields {:?}, the plain pass yields {:?} at positions {:?}", ARCH_NAMES[a], nm, label, k,
+                            got.iter().map(|r| (r.bits, r.uid())).collect::<Vec<_>>(), exp.iter().map(|i| plain.get(*i).map(|r| (r.bits, r.uid()))).collect::<Vec<_>>(), exp);
+                        self.c.derived_iter_checks += 1;
+                    }
+                    for (label, got) in &d.counts {
+                        ensure!(*got == plain.len(), "C06", "derived-iterator-method-disagrees", "{}.{}.{} with k = {}: {} items, the plain pass yields {}", ARCH_NAMES[a], nm, label, k, got, plain.len());
+                    }
+                    ensure!(d.hints.len() == plain.len() + 1, "C06", "derived-iterator-method-disagrees", "{}.{}: {} calls of next() before None, the plain pass yields {}", ARCH_NAMES[a], nm, d.hints.len(), plain.len());
+                    for (j, (lo, hi)) in d.hints.iter().enumerate() {
+                        let rem = plain.len() - j;
+                        ensure!(*lo <= rem && hi.map(|h| rem <= h).unwrap_or(true), "C06", "size-hint-wrong", "{}.{}: size_hint() after {} items is ({}, {:?}) but {} items remain", ARCH_NAMES[a], nm, j, lo, hi, rem);
+                    }
+                }
+            }
+        }
         for qf in 0..N_QFORMS {
             let archs: Vec<usize> = (0..NARCH).filter(|a| qform_matches(qf, *a)).collect();
             let n: usize = archs.iter().map(|a| self.models[w].order[*a].len()).sum();
